@@ -1,3 +1,286 @@
 import TxV.Model.POAllocator
+/-!
+Helper lemmas for C26 (PreservedOrderAllocator): `free_idx` permutes `order`, the position search of
+`free`, how the prefix `order[:used]` changes in one cycle, the invariant and its preservation.
+-/
 namespace TxV.POAllocator
+
+/-! ### widths -/
+
+theorem lt_two_pow_bitsFor {x m : Nat} (h : x ≤ m) : x < 2 ^ bitsFor m := by
+  unfold bitsFor
+  split
+  · omega
+  · exact Nat.lt_of_le_of_lt h Nat.lt_log2_self
+
+/-- `used + alloc.run - free_idx.run` does not wrap when the result stays within `0..entries` -/
+theorem used_update (n u a f : Nat) (h1 : u + a ≤ n) (h2 : f ≤ u + a) :
+    ((u + a) % 2 ^ bitsFor n + 2 ^ bitsFor n - f) % 2 ^ bitsFor n = u + a - f := by
+  have hlt : u + a < 2 ^ bitsFor n := lt_two_pow_bitsFor h1
+  rw [Nat.mod_eq_of_lt hlt]
+  have : u + a + 2 ^ bitsFor n - f = (u + a - f) + 2 ^ bitsFor n := by omega
+  rw [this, Nat.add_mod_right]
+  exact Nat.mod_eq_of_lt (by omega)
+
+/-! ### `free_idx` moves one entry to the end -/
+
+theorem eraseIdx_append_perm : ∀ (l : List Nat) (k : Nat) (x : Nat), l[k]? = some x → (l.eraseIdx k ++ [x]).Perm l
+  | [], k, x, h => by simp at h
+  | y :: ys, 0, x, h => by
+    simp only [List.getElem?_cons_zero, Option.some.injEq] at h
+    subst h
+    simp
+  | y :: ys, k+1, x, h => by
+    simp only [List.getElem?_cons_succ] at h
+    simpa using (eraseIdx_append_perm ys k x h).cons y
+
+theorem moveToEnd_perm (order : List Nat) (idx : Nat) (h : idx < order.length) :
+    (moveToEnd order idx).Perm order := by
+  unfold moveToEnd
+  rw [List.getElem?_eq_getElem h]
+  exact eraseIdx_append_perm order idx _ (List.getElem?_eq_getElem h)
+
+/-- after `free_idx(idx)` the first `k-1` entries are the first `k` old ones without position `idx` -/
+theorem take_moveToEnd (l : List Nat) (idx k : Nat) (h1 : idx < k) (h2 : k ≤ l.length) :
+    (moveToEnd l idx).take (k - 1) = (l.take k).eraseIdx idx := by
+  unfold moveToEnd
+  rw [List.getElem?_eq_getElem (by omega)]
+  apply List.ext_getElem?
+  intro j
+  simp only [List.getElem?_take, List.getElem?_append, List.getElem?_eraseIdx, List.length_eraseIdx]
+  grind
+
+/-! ### the position search of `free` -/
+
+theorem lastIdxAux_spec : ∀ (l : List Nat) (id p acc : Nat),
+    (lastIdxAux l id p acc = acc ∧ id ∉ l) ∨ (p ≤ lastIdxAux l id p acc ∧ l[lastIdxAux l id p acc - p]? = some id)
+  | [], id, p, acc => by simp [lastIdxAux]
+  | x :: xs, id, p, acc => by
+    simp only [lastIdxAux]
+    rcases lastIdxAux_spec xs id (p + 1) (if x = id then p else acc) with ⟨h1, h2⟩ | ⟨h1, h2⟩
+    · by_cases hx : x = id
+      · right
+        rw [h1]; simp [hx]
+      · left
+        rw [h1]; simp [hx, h2]; exact fun h => hx h.symm
+    · right
+      refine ⟨by omega, ?_⟩
+      have e : lastIdxAux xs id (p + 1) (if x = id then p else acc) - p
+          = (lastIdxAux xs id (p + 1) (if x = id then p else acc) - (p + 1)) + 1 := by omega
+      rw [e, List.getElem?_cons_succ]
+      exact h2
+
+/-- when `ident` occurs in `order`, `free` finds a position holding it -/
+theorem lastIdx_spec (order : List Nat) (id : Nat) (h : id ∈ order) : order[lastIdx order id]? = some id := by
+  rcases lastIdxAux_spec order id 0 0 with ⟨_, h2⟩ | ⟨_, h2⟩
+  · exact absurd h h2
+  · simpa [lastIdx] using h2
+
+/-- with pairwise distinct entries the position is the unique one: below `used` when `ident` is among the first `used` -/
+theorem lastIdx_lt (order : List Nat) (id used : Nat) (hn : order.Nodup) (h : id ∈ order.take used) :
+    lastIdx order id < used ∧ (order.take used)[lastIdx order id]? = some id := by
+  have hm : id ∈ order := List.mem_of_mem_take h
+  have h1 := lastIdx_spec order id hm
+  obtain ⟨j, hj⟩ := List.mem_iff_getElem?.mp h
+  rw [List.getElem?_take] at hj
+  split at hj
+  · rename_i hju
+    have hjl : j < order.length := (List.getElem?_eq_some_iff.mp hj).1
+    have : j = lastIdx order id := (List.getElem?_inj hjl hn).mp (by rw [hj, h1])
+    subst this
+    exact ⟨hju, by rw [List.getElem?_take, if_pos hju]; exact hj⟩
+  · cases hj
+
+theorem erase_eq_eraseIdx_of_nodup : ∀ (l : List Nat) (k id : Nat), l.Nodup → l[k]? = some id → l.erase id = l.eraseIdx k
+  | [], k, id, _, h => by simp at h
+  | x :: xs, 0, id, _, h => by
+    simp only [List.getElem?_cons_zero, Option.some.injEq] at h
+    subst h; simp
+  | x :: xs, k+1, id, hn, h => by
+    simp only [List.getElem?_cons_succ] at h
+    have hmem : id ∈ xs := List.mem_of_getElem? h
+    rw [List.nodup_cons] at hn
+    have hne : x ≠ id := fun e => hn.1 (e ▸ hmem)
+    rw [List.erase_cons_tail (by simpa using hne), List.eraseIdx_cons_succ,
+      erase_eq_eraseIdx_of_nodup xs k id hn.2 h]
+
+/-! ### invariant, abstraction, environment hypotheses -/
+
+/-- `order` is a permutation of the identifiers and `used` is in range -/
+def Inv (n : Nat) (s : State) : Prop := s.order.Perm (List.range n) ∧ s.used ≤ n
+
+/-- the allocated identifiers, oldest first -/
+def allocated (s : State) : List Nat := s.order.take s.used
+
+/-- environment hypotheses of the property for one cycle: `free` only for an allocated identifier (and
+    not together with `free_idx`, whose winner is unspecified), `free_idx` only below the used count -/
+def EnvOk (s : State) (i : In) : Prop :=
+  (∀ id, i.free = some id → id ∈ allocated s ∧ i.freeIdx = none) ∧ (∀ k, i.freeIdx = some k → k < s.used)
+
+theorem inv_init (n : Nat) : Inv n (init n) := ⟨List.Perm.refl _, Nat.zero_le _⟩
+
+theorem inv_length {n : Nat} {s : State} (h : Inv n s) : s.order.length = n := by
+  have := h.1.length_eq; simpa using this
+
+theorem inv_nodup {n : Nat} {s : State} (h : Inv n s) : s.order.Nodup :=
+  (h.1.nodup_iff).mpr List.nodup_range
+
+theorem allocated_length {n : Nat} {s : State} (h : Inv n s) : (allocated s).length = s.used := by
+  simp only [allocated, List.length_take, inv_length h]
+  exact Nat.min_eq_left h.2
+
+/-- the index `free_idx` is called with in this cycle -/
+def calledIdx (s : State) (i : In) : Option Nat :=
+  match i.free with
+  | some ident => some (lastIdx s.order ident)
+  | none => i.freeIdx
+
+/-- under the hypotheses the called index designates an allocated position -/
+theorem calledIdx_lt {n : Nat} {s : State} {i : In} (hI : Inv n s) (hE : EnvOk s i) {k : Nat}
+    (h : calledIdx s i = some k) : k < s.used := by
+  unfold calledIdx at h
+  cases hf : i.free with
+  | some id =>
+    rw [hf] at h; simp only [Option.some.injEq] at h; subst h
+    exact (lastIdx_lt _ _ _ (inv_nodup hI) (hE.1 id hf).1).1
+  | none =>
+    rw [hf] at h
+    exact hE.2 k h
+
+theorem arun_le {n : Nat} {s : State} {i : In} (hu : s.used ≤ n) :
+    s.used + (i.alloc && (s.used != n)).toNat ≤ n := by
+  by_cases h : s.used = n
+  · simp [h]
+  · have hb : (s.used != n) = true := by simpa using h
+    rw [hb]
+    cases i.alloc <;> simp <;> omega
+
+/-- state after a cycle without `clear` under the invariant and the environment hypotheses -/
+theorem step_noclear {n : Nat} {s : State} {i : In} (hI : Inv n s) (hE : EnvOk s i) (hc : i.clear = false) :
+    (step n s i).1 =
+      { order := match calledIdx s i with | some k => moveToEnd s.order k | none => s.order
+        used := s.used + (i.alloc && (s.used != n)).toNat - (calledIdx s i).isSome.toNat } := by
+  have ha : s.used + (i.alloc && (s.used != n)).toNat ≤ n := arun_le hI.2
+  have hf : (calledIdx s i).isSome.toNat ≤ s.used + (i.alloc && (s.used != n)).toNat := by
+    cases h : calledIdx s i with
+    | none => simp
+    | some k => have := calledIdx_lt hI hE h; simp; omega
+  simp only [step, hc, Bool.false_eq_true, if_false]
+  congr 1
+  exact used_update n _ _ _ ha hf
+
+theorem step_clear (n : Nat) (s : State) (i : In) (hc : i.clear = true) : (step n s i).1 = init n := by
+  simp [step, hc]
+
+theorem inv_step {n : Nat} {s : State} {i : In} (hI : Inv n s) (hE : EnvOk s i) : Inv n (step n s i).1 := by
+  cases hc : i.clear with
+  | true => rw [step_clear n s i hc]; exact inv_init n
+  | false =>
+    rw [step_noclear hI hE hc]
+    refine ⟨?_, ?_⟩
+    · cases h : calledIdx s i with
+      | none => exact hI.1
+      | some k =>
+        have hk := calledIdx_lt hI hE h
+        exact (moveToEnd_perm _ _ (by rw [inv_length hI]; have := hI.2; omega)).trans hI.1
+    · have := arun_le (i := i) hI.2
+      simp only
+      omega
+
+/-- the allocated list after a cycle without `clear`: the designated entry removed, the returned
+    identifier appended -/
+theorem allocated_step {n : Nat} {s : State} {i : In} (hI : Inv n s) (hE : EnvOk s i) (hc : i.clear = false) :
+    allocated (step n s i).1 =
+      (match calledIdx s i with | some k => (allocated s).eraseIdx k | none => allocated s) ++
+      (match (step n s i).2.alloc with | some id => [id] | none => []) := by
+  rw [step_noclear hI hE hc]
+  have hlen := inv_length hI
+  have hu := hI.2
+  -- the returned identifier
+  have hout : (step n s i).2.alloc = if (i.alloc && (s.used != n)) then some (arrayRead s.order s.used) else none := rfl
+  rw [hout]
+  by_cases ha : (i.alloc && (s.used != n)) = true
+  · -- alloc executes: used < n
+    have hne : s.used ≠ n := by
+      simp only [Bool.and_eq_true, bne_iff_ne] at ha; exact ha.2
+    have hlt : s.used < s.order.length := by omega
+    have hread : arrayRead s.order s.used = s.order[s.used] := by
+      simp [arrayRead, List.getElem?_eq_getElem hlt]
+    have htake : s.order.take (s.used + 1) = s.order.take s.used ++ [s.order[s.used]] := by
+      rw [List.take_add_one, List.getElem?_eq_getElem hlt]; rfl
+    simp only [ha, Bool.toNat_true, if_true, hread, allocated]
+    cases h : calledIdx s i with
+    | none =>
+      simp only [Option.isSome_none, Bool.toNat_false, Nat.sub_zero]
+      exact htake
+    | some k =>
+      have hk := calledIdx_lt hI hE h
+      simp only [Option.isSome_some, Bool.toNat_true]
+      rw [take_moveToEnd _ _ _ (by omega) (by omega), htake,
+        List.eraseIdx_append_of_lt_length (by simp [List.length_take]; omega)]
+  · have ha' : (i.alloc && (s.used != n)) = false := by simpa using ha
+    simp only [ha', Bool.toNat_false, Nat.add_zero, Bool.false_eq_true, if_false, List.append_nil, allocated]
+    cases h : calledIdx s i with
+    | none => simp
+    | some k =>
+      have hk := calledIdx_lt hI hE h
+      simp only [Option.isSome_some, Bool.toNat_true]
+      exact take_moveToEnd _ _ _ hk (by omega)
+
+theorem allocated_nodup {n : Nat} {s : State} (h : Inv n s) : (allocated s).Nodup :=
+  List.Nodup.sublist (List.take_sublist _ _) (inv_nodup h)
+
+/-! ### histories -/
+
+/-- bookkeeping of the allocated identifiers (oldest first) from the observations of one cycle:
+    `clear` empties it; otherwise the designated identifier leaves (`free(ident)`: that identifier,
+    `free_idx(idx)`: the one at position `idx`) and the identifier returned by `alloc` is appended -/
+def ghostStep (A : List Nat) (i : In) (o : Out) : List Nat :=
+  if o.clear then [] else
+  (match i.free with
+   | some id => A.erase id
+   | none => match i.freeIdx with
+     | some k => A.eraseIdx k
+     | none => A) ++
+  (match o.alloc with | some id => [id] | none => [])
+
+/-- states reachable from reset by histories in which the environment frees only allocated
+    identifiers (according to the bookkeeping list) and indices below the number of allocated ones,
+    and never attempts `free` and `free_idx` in the same cycle -/
+inductive Reach (n : Nat) : State → List Nat → Prop
+  | init : Reach n (init n) []
+  | step {s : State} {A : List Nat} (i : In) : Reach n s A →
+      (∀ id, i.free = some id → id ∈ A ∧ i.freeIdx = none) → (∀ k, i.freeIdx = some k → k < A.length) →
+      Reach n (step n s i).1 (ghostStep A i (step n s i).2)
+
+theorem ghost_agrees {n : Nat} {s : State} {i : In} (hI : Inv n s) (hE : EnvOk s i) :
+    allocated (step n s i).1 = ghostStep (allocated s) i (step n s i).2 := by
+  cases hc : i.clear with
+  | true =>
+    have : (step n s i).2.clear = true := by simp [step, hc]
+    rw [step_clear n s i hc]
+    simp [ghostStep, this, allocated, init]
+  | false =>
+    have : (step n s i).2.clear = false := by simp [step, hc]
+    rw [allocated_step hI hE hc]
+    simp only [ghostStep, this, Bool.false_eq_true, if_false]
+    congr 1
+    cases hf : i.free with
+    | some id =>
+      simp only [calledIdx, hf]
+      have := lastIdx_lt _ _ _ (inv_nodup hI) (hE.1 id hf).1
+      exact (erase_eq_eraseIdx_of_nodup _ _ _ (allocated_nodup hI) this.2).symm
+    | none => simp only [calledIdx, hf]
+
+theorem reach_inv {n : Nat} {s : State} {A : List Nat} (h : Reach n s A) : Inv n s ∧ allocated s = A := by
+  induction h with
+  | init => exact ⟨inv_init n, by simp [allocated, init]⟩
+  | @step s' A' i _ h1 h2 ih =>
+    obtain ⟨hI, hA⟩ := ih
+    have hE : EnvOk s' i := by
+      refine ⟨fun id hf => ?_, fun k hk => ?_⟩
+      · rw [hA]; exact h1 id hf
+      · have := h2 k hk; rw [← hA, allocated_length hI] at this; exact this
+    exact ⟨inv_step hI hE, by rw [ghost_agrees hI hE, hA]⟩
+
 end TxV.POAllocator
